@@ -242,7 +242,11 @@ func c20body(cs c20case) (func(), func() (string, error)) {
 	case "shuffletips":
 		var t *tree.Tree
 		body := func() {
-			t = gtMustParse(c20tipTree(cs.N))
+			txt := c20tipTree(cs.N)
+			if cs.Shape != "" {
+				txt = cs.Shape // tips t0..t(N-1) in another shape
+			}
+			t = gtMustParse(txt)
 			t.ShuffleTips()
 		}
 		return body, func() (string, error) {
@@ -491,6 +495,9 @@ func c20cases(quick bool) []c20case {
 	for n := 3; n <= maxN; n++ {
 		cs = append(cs, c20case{Driver: "shuffletips", N: n})
 	}
+	// other shapes: a tree rooted on a tip (the root has one neighbour and is a tip itself), a rooted binary tree, a caterpillar
+	cs = append(cs, c20case{Driver: "shuffletips", N: 4, Shape: "(((t1:1,t2:1):1,t3:1):1)t0;"}, c20case{Driver: "shuffletips", N: 3, Shape: "((t1:1,t2:1):1)t0;"},
+		c20case{Driver: "shuffletips", N: 4, Shape: "((t0:1,t1:1):1,(t2:1,t3:1):1);"}, c20case{Driver: "shuffletips", N: 5, Shape: "((((t0:1,t1:1):1,t2:1):1,t3:1):1,t4:1);"})
 	shapes := []string{"(a,b,c);", "(a,b,c,d);", "((a,b),c,d);", "((a,b),(c,d));", "((a,b,c),d,e);", "(a,b,c,d,e);", "((a,b),(c,d),e);"}
 	if !quick {
 		shapes = append(shapes, "((a,b),(c,d),(e,f));", "((a,b,c,d),e,f);")
